@@ -249,6 +249,54 @@ def printed_values(out, tag=None):
     return vals
 
 
+# ------------------------------------------------------------------ functional validation
+
+def validate_obs(run, module, obs, label='obs', constants=None, timeout=3000):
+    """obs: list of dicts with unique integer 'id'.  Returns {id: verdict tuple} as decided
+    by TLC running the trace specification <module> (which EXTENDS TraceKit)."""
+    if not obs:
+        return {}
+    tf = os.path.join(scratch(), '%s_%s_%d.ndjson' % (module, label, len(os.listdir(scratch()))))
+    with open(tf, 'w') as f:
+        for o in obs:
+            f.write(json.dumps(o, ensure_ascii=True) + '\n')
+    devs = sorted(set(fd['deviation'] for fd in run.findings.for_property(run.pid)))
+    cfg = os.path.join(scratch(), '%s_%s.cfg' % (module, label))
+    with open(cfg, 'w') as f:
+        f.write('SPECIFICATION KSpec\nINVARIANT Inv\nCHECK_DEADLOCK FALSE\nCONSTANTS\n')
+        f.write('  OpenDevs = {%s}\n' % ', '.join('"%s"' % d for d in devs))
+        for k, v in (constants or {}).items():
+            f.write('  %s = %s\n' % (k, v))
+    r = run_tlc(module + '.tla', cfg, env={'TRACE_FILE': tf}, timeout=timeout)
+    run.add_tlc('%s[%s]' % (module, label), r)
+    verdicts = {}
+    for v in printed_values(r.out, 'V'):
+        verdicts[v[1]] = tuple(v[2:])
+    missing = [o['id'] for o in obs if o['id'] not in verdicts]
+    if missing:
+        raise MachineryError('%s: no verdict for %d observations (first id %s)' % (module, len(missing), missing[0]))
+    return verdicts
+
+
+def tally(run, obs, verdicts, engine, nontrivial=None, key=None):
+    """Book-keeping common to the functional checks."""
+    for o in obs:
+        v = verdicts[o['id']]
+        run.traces += 1
+        run.evaluations += 1
+        k = key(o) if key else json.dumps(o['in'], sort_keys=True)
+        if nontrivial is None or nontrivial(o):
+            run.distinct.add(k)
+        if v[0] == 'ok':
+            continue
+        if v[0] == 'dev':
+            run.known_finding(v[1])
+            continue
+        case = {k2: o[k2] for k2 in o if k2 not in ('id',)}
+        run.violation(case, 'bad: ' + ' '.join(str(x) for x in v[1:]) + ' | observed ' +
+                      json.dumps(o.get('out'))[:300], engine=engine)
+
+
 # ------------------------------------------------------------------ findings
 
 class Findings(object):
